@@ -294,6 +294,8 @@ def make_results(trafo_loading):
         fl, tl = net._pd2ppc_lookups["branch"]["line"]
         ft, tt = net._pd2ppc_lookups["branch"]["trafo"]
         rows = {"line": fl, "trafo": ft}
+        f3, hv3, mv3, lv3 = rb._get_trafo3w_lookups(net)
+        rows3 = {"hv": (f3, "f"), "mv": (hv3, "t"), "lv": (mv3, "t")}     # terminal side of the three internal branches
         ppc = {"bus": ctx.obj(net._ppc["bus"]), "branch": ctx.obj(net._ppc["branch"].real)}
         S, W = {}, {}
         for el, k in rows.items():
@@ -302,14 +304,27 @@ def make_results(trafo_loading):
                 S[(el, side)] = sabs
                 ppc["branch"][k, pc] = sabs * (1 - w * w) / (1 + w * w)
                 ppc["branch"][k, qc] = sabs * 2 * w / (1 + w * w)
+        for w3, (k, side) in rows3.items():
+            pc, qc = (PF, QF) if side == "f" else (PT, QT)
+            sabs, w = ctx.var(f"s_t3_{w3}", 0., 60.), ctx.var(f"w_t3_{w3}", -0.9, 0.9)
+            S[("t3", w3)] = sabs
+            ppc["branch"][k, pc] = sabs * (1 - w * w) / (1 + w * w)
+            ppc["branch"][k, qc] = sabs * 2 * w / (1 + w * w)
         vm, vn = {}, {}
-        for el, k in rows.items():
-            for side, col in (("f", F_BUS), ("t", T_BUS)):
-                b = int(ppc["branch"][k, col])
-                if b not in vm:
-                    vm[b] = ctx.var(f"vm{b}", 0.8, 1.2)
-                    ppc["bus"][b, VM] = vm[b]
-                    vn[b] = float(ppc["bus"][b, BASE_KV])
+        t3bus = {}
+        for el, k, side, col in [(el, k, side, col) for el, k in rows.items() for side, col in (("f", F_BUS), ("t", T_BUS))] + \
+                                [("t3_" + w3, k, side, F_BUS if side == "f" else T_BUS) for w3, (k, side) in rows3.items()]:
+            b = int(ppc["branch"][k, col])
+            if el.startswith("t3_"):
+                t3bus[el[3:]] = b
+            if b not in vm:
+                vm[b] = ctx.var(f"vm{b}", 0.8, 1.2)
+                ppc["bus"][b, VM] = vm[b]
+                vn[b] = float(ppc["bus"][b, BASE_KV])
+        t3 = {c: ctx.var(f"trafo3w_{c}", lo, hi) for c, (lo, hi) in {"sn_hv_mva": (1., 100.), "sn_mv_mva": (1., 100.), "sn_lv_mva": (1., 100.),
+                                                                      "vn_hv_kv": (50., 400.), "vn_mv_kv": (5., 40.), "vn_lv_kv": (0.4, 20.)}.items()}
+        for c, v in t3.items():
+            setcol(ctx, net.trafo3w, c, [v])
         line = {c: ctx.var(f"line_{c}", lo, hi) for c, (lo, hi) in {"max_i_ka": (0.05, 2.), "df": (0.1, 1.), "parallel": (1., 3.)}.items()}
         for c, v in line.items():
             col = list(net.line[c].values.astype(float))
@@ -323,7 +338,21 @@ def make_results(trafo_loading):
         i_ft, s_ft = rb._get_branch_flows(ppc)
         rb._get_line_results(net, ppc, i_ft)
         rb._get_trafo_results(net, ppc, s_ft, i_ft)
+        rb._get_trafo3w_results(net, ppc, s_ft, i_ft)
         s3 = np.sqrt(3)
+        r3 = net.res_trafo3w
+        cur, lds = {}, []
+        for w3 in ("hv", "mv", "lv"):
+            b = t3bus[w3]
+            cur[w3] = S[("t3", w3)] / (vm[b] * vn[b] * s3)
+            ctx.eq(f"trafo3w_i_{w3}_is_S_over_sqrt3_V", r3[f"i_{w3}_ka"].values[0], cur[w3])
+            if trafo_loading == "current":
+                lds.append(cur[w3] * t3[f"vn_{w3}_kv"] * s3 / t3[f"sn_{w3}_mva"] * 100)
+            else:
+                lds.append(S[("t3", w3)] / t3[f"sn_{w3}_mva"] * 100)
+        ld3 = r3.loading_percent.values[0]
+        ctx.true(f"trafo3w_loading_{trafo_loading}_is_the_largest_winding_loading_over_its_own_rating",
+                 ((ld3 == lds[0]) | (ld3 == lds[1]) | (ld3 == lds[2])) & (ld3 >= lds[0]) & (ld3 >= lds[1]) & (ld3 >= lds[2]))
         k = rows["line"]
         fb, tb = int(ppc["branch"][k, F_BUS]), int(ppc["branch"][k, T_BUS])
         i_f = S[("line", "f")] / (vm[fb] * vn[fb] * s3)
@@ -429,8 +458,8 @@ def make_dc():
 def instances(tier):
     out = [Inst("line", make_line(), nvars=20, samples=3, meta=dict(element="line")),
            Inst("dc_model", make_dc(), nvars=30, samples=2, meta=dict(part="DC power flow model")),
-           Inst("results_current", make_results("current"), nvars=30, samples=2, raises=(UserWarning,), meta=dict(part="result side", trafo_loading="current")),
-           Inst("results_power", make_results("power"), nvars=30, samples=2, raises=(UserWarning,), meta=dict(part="result side", trafo_loading="power")),
+           Inst("results_current", make_results("current"), nvars=48, samples=2, raises=(UserWarning,), meta=dict(part="result side", trafo_loading="current")),
+           Inst("results_power", make_results("power"), nvars=48, samples=2, raises=(UserWarning,), meta=dict(part="result side", trafo_loading="power")),
            Inst("impedance_switch", make_switch(), nvars=16, samples=3, meta=dict(element="bus-bus switch with z_ohm > 0")),
            Inst("impedance", make_impedance(), nvars=20, samples=3, meta=dict(element="impedance"))]
     combos = [("None", "hv", "pi"), ("Ratio", "hv", "pi"), ("Ratio", "lv", "pi"), ("Ideal", "hv", "pi"), ("Ideal", "lv", "pi"),
